@@ -52,7 +52,7 @@ Theorem C15_parallel_value_is_sequential_value :
      (forall a b c, f (f a b) c = f a (f b c)) /\ (forall a b, f a b = f b a)) ->
   let stop := if is_find t then stop_of p src else (@nostop) in
   all_done (mrun r (length src) stop sched) ->
-  req (finish t (pe_of p src) (length src) (kind_of p) (ws (mrun r (length src) stop sched)))
+  req (finish t (pe_of p src) (length src) (kind_of p) 0 (ws (mrun r (length src) stop sched)))
       (fst (finish_seq t (flat_map (trace p) src) src p)).
 Proof. intros r p src t sched Hw H1 Hop stop Hd. apply exec_value_indexed; assumption. Qed.
 Print Assumptions C15_parallel_value_is_sequential_value.
@@ -65,7 +65,7 @@ Theorem C15_parallel_value_is_sequential_value_iter :
      (forall a b c, f (f a b) c = f a (f b c)) /\ (forall a b, f a b = f b a)) ->
   let stop := if is_find t then stop_of p src else (@nostop) in
   iall_done (imrun r (length src) ordered stop sched) ->
-  req (finish t (pe_of p src) (length src) (kind_of p) (map wk (iws (imrun r (length src) ordered stop sched))))
+  req (finish t (pe_of p src) (length src) (kind_of p) 0 (map wk (iws (imrun r (length src) ordered stop sched))))
       (fst (finish_seq t (flat_map (trace p) src) src p)).
 Proof. intros r p src t ordered sched Hw H1 Hop stop Hd. apply exec_value_iter; assumption. Qed.
 Print Assumptions C15_parallel_value_is_sequential_value_iter.
